@@ -25,6 +25,15 @@ def main():
         print("no check for", prop)
         return 2
     if a.replay:
+        import json
+        try:
+            rj = json.load(open(a.replay))
+        except Exception:
+            rj = {}
+        if isinstance(rj.get("case"), dict) and "history" in rj["case"] and "structures" in rj["case"]:
+            common.install_matid()
+            import analyzer_hist
+            return analyzer_hist.replay(a.replay)
         return mod.replay(a.replay)
     ctx = common.Ctx(prop, a.tier, seed)
     try:
